@@ -1,7 +1,7 @@
 #!/bin/bash
 # usage: seedconfirm2.sh <ID>  — round-2 layout: /tmp/mut2/<ID>/out/patch.diff, demo at tests/demo_<ID>.rs or bevy/tests/demo_<ID>.rs
-ID=$1; W=/tmp/mut2/$ID
-export CARGO_TARGET_DIR=/tmp/mut2/target_shared CARGO_NET_OFFLINE=true
+ID=$1; ROOT=${MUTROOT:-/tmp/mut2}; W=$ROOT/$ID
+export CARGO_TARGET_DIR=$ROOT/target_shared CARGO_NET_OFFLINE=true
 cd $W || exit 9
 git checkout -q -- core macros src bevy/src 2>/dev/null
 P=$W/out/patch.diff
